@@ -246,7 +246,7 @@ func runKvs(seed int64, ncalls int, out string, budget int) {
 	w := bufio.NewWriterSize(f, 1<<20)
 	defer w.Flush()
 	rng := rand.New(rand.NewSource(seed))
-	const sz = 560
+	const sz = 760
 	d := NewSDisk(sz + 16) // the disk is larger than the store, so keys just past the range are real blocks
 	store := kvs.MkKVS(d, sz)
 	fmt.Fprintf(w, "KI %d\n", sz)
@@ -278,10 +278,17 @@ func runKvs(seed int64, ncalls int, out string, budget int) {
 			}()
 		} else {
 			n := 1 + rng.Intn(5)
+			big := rng.Intn(12) == 0
+			if big {
+				n = 60 + rng.Intn(120) // many distinct keys in one call (journal-sized transactions)
+			}
 			var pairs []kvs.KVPair
 			fmt.Fprintf(w, "KP %d %d", i, n)
 			for j := 0; j < n; j++ {
 				k := key()
+				if big {
+					k = uint64(513 + (j*7+i)%(sz-513))
+				}
 				v := make([]byte, 4096)
 				fill := byte(1 + rng.Intn(250))
 				for x := 0; x < 64; x++ {
